@@ -5,4 +5,5 @@ CONSTANTS
 INVARIANTS
   FamilyValid
   EncTotal
+  PlainTotal
 CHECK_DEADLOCK FALSE
